@@ -42,6 +42,7 @@ def _method(ex: Exec, base: SV, name: str, node: ast.Call):
         s = ex.rd("seq", oid)
         if ex.branch(z3.Length(s) == 0, "qempty"):
             raise PyRaise("Empty", [])
+        ex.assume(S.elt_link(s, z3.IntVal(0)))
         ex.check_frame(oid, "seq", "queue.get_nowait")
         ex.wr("seq", oid, z3.Extract(s, 1, z3.Length(s) - 1))
         ety = base.ty.args[0] if base.ty.args else T.ANY
